@@ -17,6 +17,20 @@ SO="$(ls -t "$HERE"/target/debug/lib_sas_lexer_rust.so 2>/dev/null | head -1)"
 cp "$SO" "$HERE/build/pkg/_sas_lexer_rust.so" || exit 2
 rm -f "$HERE"/build/generated/*.py
 cp "$SCRATCH"/repo/src/sas_lexer/*.py "$HERE/build/generated/" || exit 2
+# the reference dumper: a plain Rust program that depends on the lexer crate exactly as the binding does (same
+# dependency line, same workspace, same lock file, same profile) and prints what that crate returns; if it cannot be
+# built (the crate's API changed), the comparison is skipped and the evidence says so
+rm -f "$HERE/build/refdump"
+DEP="$(sed -n '/^\[dependencies\]/,/^\[/p' "$SCRATCH/repo/crates/sas-lexer-py/Cargo.toml" | grep -E '^sas-lexer[ =]' | head -1)"
+if [ -n "$DEP" ]; then
+  mkdir -p "$SCRATCH/repo/crates/verif-refdump/src"
+  cp "$HERE/refdump/src/main.rs" "$SCRATCH/repo/crates/verif-refdump/src/main.rs"
+  SB="$(sed -n '/^\[dependencies\]/,/^\[/p' "$SCRATCH/repo/crates/sas-lexer-py/Cargo.toml" | grep -E '^serde_bytes[ =]' | head -1)"
+  printf '[package]\nname = "verif-refdump"\nversion = "0.0.0"\nedition = "2021"\npublish = false\n\n[dependencies]\n%s\nrmp-serde = { workspace = true }\n%s\n' "$DEP" "${SB:-serde_bytes = \"0.11\"}" > "$SCRATCH/repo/crates/verif-refdump/Cargo.toml"
+  if ( cd "$SCRATCH/repo" && CARGO_TARGET_DIR="$HERE/target" cargo build -p verif-refdump --offline ) > "$HERE/build/refdump-build.log" 2>&1; then
+    cp "$HERE/target/debug/verif-refdump" "$HERE/build/refdump"
+  fi
+fi
 # which lexer crate did the binding link? (recorded in the evidence)
 ( cd "$SCRATCH/repo" && CARGO_TARGET_DIR="$HERE/target" cargo tree -p sas-lexer-py --offline --depth 1 2>/dev/null | grep -E "sas-lexer " | head -1 ) > "$HERE/build/linked_lexer.txt" || true
 exit 0
